@@ -92,10 +92,21 @@ struct Probe
     }
 };
 
-struct CheckedAlloc
+// the state of a stateful allocator need not live inside the object: `CheckedAllocT<true>` is an EMPTY class that declares
+// is_stateful (a handle to shared state) - it needs the mutex exactly like the non-empty one
+template <bool Empty>
+struct CheckedBase
+{
+    int dummy = 0;
+};
+template <>
+struct CheckedBase<true>
+{
+};
+template <bool Empty>
+struct CheckedAllocT : CheckedBase<Empty>
 {
     using is_stateful = std::true_type;
-    int   dummy = 0;
     void* allocate_node(std::size_t size, std::size_t)
     {
         Probe p(M_allocate_node);
@@ -154,6 +165,10 @@ struct CheckedAlloc
         return 16;
     }
 };
+
+using CheckedAlloc = CheckedAllocT<false>;
+using CheckedAllocEmpty = CheckedAllocT<true>;
+static_assert(std::is_empty<CheckedAllocEmpty>::value, "archetype must be an empty class");
 
 template <class Storage>
 static void hammer(const char* name, Storage& st, int nthreads, long iters, bool use_proxy)
@@ -214,7 +229,8 @@ int main(int argc, char** argv)
     std::printf("header subject=locks %s\n", cfg_string().c_str());
     std::printf("lkcfg stateless_no_mutex=%d stateful_given_mutex=%d joint_thread_safe=%d\n",
                 (int)std::is_same<detail::mutex_for<heap_allocator, std::mutex>, no_mutex>::value,
-                (int)std::is_same<detail::mutex_for<CheckedAlloc, OwnerMutex>, OwnerMutex>::value,
+                (int)(std::is_same<detail::mutex_for<CheckedAlloc, OwnerMutex>, OwnerMutex>::value
+                      && std::is_same<detail::mutex_for<CheckedAllocEmpty, OwnerMutex>, OwnerMutex>::value),
                 (int)is_thread_safe_allocator<joint_allocator>::value);
     for (int n : {2, 4, 8})
     {
@@ -233,6 +249,15 @@ int main(int argc, char** argv)
             CheckedAlloc                                                  a;
             allocator_storage<reference_storage<any_allocator>, OwnerMutex> st(a);
             hammer(fmt("any/%d", n).c_str(), st, n, iters, false);
+        }
+        { // empty class with external state
+            thread_safe_allocator<CheckedAllocEmpty, OwnerMutex> st{CheckedAllocEmpty{}};
+            hammer(fmt("direct-empty/%d", n).c_str(), st, n, iters, true);
+        }
+        {
+            CheckedAllocEmpty                                                   a;
+            allocator_storage<reference_storage<CheckedAllocEmpty>, OwnerMutex> st(a);
+            hammer(fmt("reference-empty/%d", n).c_str(), st, n, iters, true);
         }
     }
     // a stateless allocator needs and takes no lock: concurrent use of the real heap_allocator through thread_safe_allocator
